@@ -260,10 +260,42 @@ Record tcres := { elab : term; ty : term; st : store; errs : list err }.
 
 Definition fresh_hole (s : store) : term * store := let '(id, s') := salloc s in (THole id 0, s').
 
+Definition expectB (f : nat) (s0 : store) (D0 : dctx) (actual wanted : term) (e : err) (es : list err)
+  : option (store * list err) :=
+  r <- unifyB f s0 D0 actual wanted ;; let '(ok, s1) := r in Some (s1, if ok then es else es ++ [e]).
+
+(* the loop over the definitions of a group, parameterised by the recursive checker *)
+Fixpoint tc_defs (f : nat) (tc : store -> term -> option tcres) (D' : dctx)
+                 (l : list (term * term)) (s0 : store) (es : list err)
+  : option (list (term * term) * store * list err) :=
+  match l with
+  | [] => Some ([], s0, es)
+  | (a, d) :: rest =>
+      rd <- tc s0 d ;;
+      x <- expectB f (st rd) D' (ty rd) a EAnnotation (es ++ errs rd) ;; let '(s1, es1) := x in
+      z <- tc_defs f tc D' rest s1 es1 ;; let '(rest', s2, es2) := z in
+      Some ((a, elab rd) :: rest', s2, es2)
+  end.
+
+(* the type of a group: open each group variable with the corresponding projection (cutoff 0: D4) *)
+Fixpoint shift_defs (f : nat) (s0 : store) (m : nat) (l : list (term * term)) : option (list (term * term)) :=
+  match l with
+  | [] => Some []
+  | (a, d) :: rest => a' <- ushiftB f s0 a 0 m ;; d' <- ushiftB f s0 d 0 m ;; r' <- shift_defs f s0 m rest ;; Some ((a', d') :: r')
+  end.
+Fixpoint group_type (f : nat) (n : nat) (ds' : list (term * term)) (i k : nat) (acc : term) (s0 : store)
+  : option (term * store) :=
+  match k with
+  | O => Some (acc, s0)
+  | S k' =>
+      sh <- shift_defs f s0 (n - 1 - i) ds' ;;
+      o <- openB f s0 acc 0 (TLet sh (TVar i)) 0 ;; let '(acc', s') := o in
+      group_type f n ds' (S i) k' acc' s'
+  end.
+
 Fixpoint tcB (fuel : nat) (s : store) (G : tctx) (D : dctx) (t : term) : option tcres :=
   match fuel with O => None | S f =>
-  let expect (s0 : store) (D0 : dctx) (actual wanted : term) (e : err) (es : list err) : option (store * list err) :=
-      r <- unifyB f s0 D0 actual wanted ;; let '(ok, s1) := r in Some (s1, if ok then es else es ++ [e]) in
+  let expect := expectB f in
   match t with
   | THole _ _ | TType | TInt | TBool => Some {| elab := t; ty := TType; st := s; errs := [] |}
   | TLit _ => Some {| elab := t; ty := TInt; st := s; errs := [] |}
@@ -299,31 +331,11 @@ Fixpoint tcB (fuel : nat) (s : store) (G : tctx) (D : dctx) (t : term) : option 
                    match l with [] => acc | (a, _) :: r => push r (S i) ((a, n - i) :: acc) end) ds 0 G in
       let D' := (fix push (l : list (term * term)) (i : nat) (acc : dctx) : dctx :=
                    match l with [] => acc | (_, d) :: r => push r (S i) (Some (d, n - i) :: acc) end) ds 0 D in
-      r <- (fix go (l : list (term * term)) (s0 : store) (es : list err) : option (list (term * term) * store * list err) :=
-              match l with
-              | [] => Some ([], s0, es)
-              | (a, d) :: rest =>
-                  rd <- tcB f s0 G' D' d ;;
-                  x <- expect (st rd) D' (ty rd) a EAnnotation (es ++ errs rd) ;; let '(s1, es1) := x in
-                  z <- go rest s1 es1 ;; let '(rest', s2, es2) := z in
-                  Some ((a, elab rd) :: rest', s2, es2)
-              end) ds s [] ;;
+      r <- tc_defs f (fun s0 d => tcB f s0 G' D' d) D' ds s [] ;;
       let '(ds', s1, es1) := r in
       rb <- tcB f s1 G' D' b ;;
       (* the type of the group: open each group variable with the corresponding projection (buggy cutoff 0: D4) *)
-      T <- (fix fold (i : nat) (k : nat) (acc : term) (s0 : store) : option (term * store) :=
-              match k with
-              | O => Some (acc, s0)
-              | S k' =>
-                  let m := n - 1 - i in
-                  sh <- (fix go (l : list (term * term)) : option (list (term * term)) :=
-                           match l with
-                           | [] => Some []
-                           | (a, d) :: rest => a' <- ushiftB f s0 a 0 m ;; d' <- ushiftB f s0 d 0 m ;; r' <- go rest ;; Some ((a', d') :: r')
-                           end) ds' ;;
-                  o <- openB f s0 acc 0 (TLet sh (TVar i)) 0 ;; let '(acc', s') := o in
-                  fold (S i) k' acc' s'
-              end) 0 n (ty rb) (st rb) ;;
+      T <- group_type f n ds' 0 n (ty rb) (st rb) ;;
       let '(T', s3) := T in
       Some {| elab := TLet ds' (elab rb); ty := T'; st := s3; errs := es1 ++ errs rb |}
   | TNeg a =>
